@@ -11,6 +11,14 @@ from core import fkey, fbits, fbits_raw
 
 MODULE = "DfolsVerif.Properties.C17"
 BUILD_TARGETS = ["DfolsVerif.Driver.ModelDrv"]   # what lean/Main.lean imports
+
+def used_point(md, k):
+    """row k as the package uses it (evaluates there, returns it): stored coordinates clipped to the relative bounds, shifted
+    by the base point, clipped to the absolute bounds; projected when there are projections"""
+    if md.projections:
+        return md.xpt(k, abs_coordinates=True)
+    return np.minimum(np.maximum(md.xl, md.xbase + np.minimum(np.maximum(md.sl, md.points[k, :]), md.su)), md.xu)
+
 def pre_build(ctx):
     import gen_kernels
     ctx.cov["translated_model_decisions"] = gen_kernels.regenerate_model(ctx)
@@ -171,7 +179,7 @@ def gen_sequence(dfols, rng, length, with_h):
                 except AssertionError:
                     ok = False
                 if ok:
-                    v = fkey(R.objective(md.fval_v[k, :], md.xbase + md.points[k, :]))
+                    v = fkey(R.objective(md.fval_v[k, :], used_point(md, k)))
                     lines.append("msample %d %s %s" % (k, v, " ".join(fbits_raw(t) for t in r)))
                     real.append("ok " + R.digest())
                 else:
@@ -369,9 +377,9 @@ def search_one(dfols, rng, length, with_h):
                 return ("C17:mean:" + opname, "stored residual %s is not the mean %s of the samples (after %s)" % (got, mean, opname))
             if md.points[k, :].tobytes() != sh["x"].tobytes():
                 return ("C17:point-travel:" + opname, "points[%d] does not hold the point stored there (after %s)" % (k, opname))
-            want = R.objective(md.fval_v[k, :], md.xbase + md.points[k, :])
+            want = R.objective(md.fval_v[k, :], used_point(md, k))
             have = float(md.objval[k])
-            # exact without a regulariser; with h the point is xbase+points[k], whose rounding changes with base shifts
+            # exact without a regulariser; with h the point is the stored point as used, whose rounding changes with base shifts
             tol = 0.0 if R.h is None else 1e-12 * (1.0 + abs(want))
             if not (want == have or (want != want and have != have) or abs(want - have) <= tol):
                 return ("C17:obj-matches:" + opname, "objval[%d]=%r but sumsq(resid)+h=%r (after %s)" % (k, have, want, opname))
